@@ -256,18 +256,21 @@ impl RegExpBuilder {
 }
 
 /// Replaces Rust Unicode escape sequences to Python Unicode escape sequences.
+///
+/// An escaped backslash is matched as well and left as it is. Otherwise, its second
+/// half would be taken for the start of an escape sequence in a regular expression
+/// like `\\u{3}`, which is the literal text `\uuu` with its repetition converted.
 fn replace_unicode_escape_sequences(regexp: String) -> String {
     lazy_static! {
-        static ref ESCAPE_SEQUENCE: Regex = Regex::new(r"\\u\{([0-9a-f]{1,6})\}").unwrap();
+        static ref ESCAPE_SEQUENCE: Regex = Regex::new(r"\\\\|\\u\{([0-9a-f]{1,6})\}").unwrap();
     }
     ESCAPE_SEQUENCE
-        .replace_all(&regexp, |caps: &Captures| {
-            let hex_digits = &caps[1];
-            if hex_digits.len() <= 4 {
-                format!("\\u{:0>4}", hex_digits)
-            } else {
-                format!("\\U{:0>8}", hex_digits)
+        .replace_all(&regexp, |caps: &Captures| match caps.get(1) {
+            Some(hex_digits) if hex_digits.len() <= 4 => {
+                format!("\\u{:0>4}", hex_digits.as_str())
             }
+            Some(hex_digits) => format!("\\U{:0>8}", hex_digits.as_str()),
+            None => caps[0].to_string(),
         })
         .to_string()
 }
